@@ -100,6 +100,28 @@ var probeDocs = []string{
 	`<custom-y title="t" class="c">1</custom-y><custom-x class="c" title="t">2</custom-x><b-y title="t" class="c">3</b-y><custom-y class="c">4</custom-y><custom-x class="c">5</custom-x>`,
 }
 
+// completion: calls applied on top of a history so that rules which need an allowed element or attribute to show become observable
+var completion = Recipe{{M: "AllowElements", Names: []string{"a", "img", "span", "p", "q", "iframe"}},
+	{M: "AllowAttrs", Attrs: []string{"href", "src", "cite", "class", "title"}, Scope: "glob"}, {M: "RequireParseableURLs", B: true}}
+
+func probeCompleted(p *bm.Policy) []string {
+	b := &Builder{P: p}
+	for _, c := range completion {
+		c.norm()
+		b.Apply(c)
+	}
+	return probe(p)
+}
+
+func withCompletion(h []histStep, inst int) []histStep {
+	out := append([]histStep{}, h...)
+	for _, c := range completion {
+		c.norm()
+		out = append(out, histStep{inst, c})
+	}
+	return out
+}
+
 func probe(p *bm.Policy) []string {
 	out := make([]string, len(probeDocs))
 	for i, d := range probeDocs {
@@ -282,7 +304,10 @@ func cmdReplayPolicy(args []string) int {
 					}
 					// the behaviour is compared in any case: histories with the same rule set (according to the
 					// specification) must give policies that behave identically
-					co.inst = append(co.inst, instOut{string(JSON(pred)), probe(real[inst]), inst})
+					// ... also after a fixed set of completion calls that make every rule observable (a scheme pattern on a
+					// policy that allows no link yet shows only once links are allowed)
+					pv := probe(real[inst])
+					co.inst = append(co.inst, instOut{string(JSON(pred)), append(pv, probeCompleted(real[inst])...), inst})
 				}
 				outs <- co
 			}
@@ -335,9 +360,14 @@ func cmdReplayPolicy(args []string) int {
 				k := "rule-set-behaviour"
 				if !seenV[k] || len(res.Violations) < 5 {
 					seenV[k] = true
-					det := fmt.Sprintf("two construction histories give the same rule set but different output on %q: %q vs %q (histories %s [instance %d] and %s [instance %d])",
-						probeDocs[i], cl.probe[i], io.probe[i], histString(cl.hist), cl.inst, histString(co.c.Hist), io.inst)
-					res.Violations = append(res.Violations, ViolationRec{Finding{"C17", k, det}, writeC17Replay(k, det, cl.hist, co.c.Hist, io.inst, probeDocs[i])})
+					ha, hb, note := cl.hist, co.c.Hist, ""
+					if i >= len(probeDocs) {
+						ha, hb, note = withCompletion(ha, cl.inst), withCompletion(hb, io.inst), " once links, images and URL attributes are allowed on top of both"
+					}
+					pd := probeDocs[i%len(probeDocs)]
+					det := fmt.Sprintf("two construction histories give the same rule set but different output%s on %q: %q vs %q (histories %s [instance %d] and %s [instance %d])",
+						note, pd, cl.probe[i], io.probe[i], histString(cl.hist), cl.inst, histString(co.c.Hist), io.inst)
+					res.Violations = append(res.Violations, ViolationRec{Finding{"C17", k, det}, writeC17Replay(k, det, ha, hb, io.inst, pd)})
 				}
 			}
 		}
